@@ -35,7 +35,7 @@ DEDICATED = ('xdoctest.checker.GotWantException', 'xdoctest.checker.ExtractGotRe
 
 def run(ctx):
     for fn in (r1_escape_return_mode, r2_user_code_calls, r3_fail_store_leaves_loop, r4_render_index, r5_runner_policy, r6_plugin_render, r7_render_raises,
-               r8_failed_part_set_before_failure, r9_failing_line_source):
+               r8_failed_part_set_before_failure, r9_failing_line_source, r10_failed_summary_is_only_failed):
         ctx.rep.rule(fn, ctx)
 
 
@@ -436,6 +436,12 @@ def r8_failed_part_set_before_failure(ctx):
                'a failure can be recorded while failed_part still names an earlier part (or None): the report cannot be rendered or names the wrong line',
                witness=None if wit is None else graph.fmt_path(wit, rr.f.module.relpath), anchor=RUN)
     rep.floor('C09.R8', 'fail stores inside the part loop', n, 4)
+
+
+def r10_failed_summary_is_only_failed(ctx):
+    """a recorded failure yields a summary that is marked failed and nothing else (the runner looks at `skipped` first): same clause as C02.R6"""
+    from . import c02
+    c02.r6_summary_flags(ctx, rule='C09.R10')
 
 
 def r9_failing_line_source(ctx):
